@@ -1,4 +1,5 @@
 """C03 - Directory confinement: no request reads or writes outside the configured directories."""
+import re
 from analyzer import lin
 from .common import *
 from .listener import *
@@ -161,6 +162,20 @@ def check(world, tier):
         if cdef is None and isinstance(clos, tuple) and clos and clos[0] == "fn" and len(clos) > 1 and clos[1] in prog.bodies:
             cdef = clos[1]      # a named predicate function instead of a closure
         if cdef is None:
+            # a constant pattern: a char or an array / slice of chars
+            cr = const_reprs(prog, clos) + ([repr(clos)] if isinstance(clos, tuple) and clos and clos[0] == "i" else [])
+            chars = set()
+            for r_ in cr:
+                chars |= set(re.findall(r"'(\\\\|/|.)'", r_))
+            if isinstance(clos, tuple) and clos and clos[0] == "agg":
+                for vv in clos[1].values():
+                    if isinstance(vv, tuple) and vv and vv[0] == "i" and not vv[1][1]:
+                        chars.add(chr(vv[1][0]))
+            if chars:
+                norm = set("\\" if c_ in ("\\\\", "\\") else c_ for c_ in chars)
+                e_.ob({"/", "\\"} <= norm, "trim-both-separators", "leading '/' and '\\\\' are not both trimmed from the request filename (trimmed: %s)" % sorted(norm), e.loc,
+                      sample={"trimmed characters": sorted(norm)})
+                continue
             pat = clos
             e_.ob(False, "trim-pattern", "leading separators are trimmed with an unrecognised pattern %r" % (repr(pat)[:40],), e.loc)
             continue
